@@ -200,6 +200,34 @@ def reuse_check(fast_json, v):
     return out
 
 
+def bigtwins(fast_json, spec):
+    """one very large value (far above every buffer) in the two spellings the two encoders give it - the orjson one
+    (raw UTF-8, compact) and the stdlib one (\\uXXXX escapes, 6 or 12 characters per non-ASCII character) - decoded as str
+    and as bytes.  The texts are built here with the stdlib encoder in both styles (for these values they are exactly what
+    the two backends write, as the main correspondence establishes on smaller sizes), so nothing huge crosses a pipe."""
+    import json as stdjson
+
+    unit, count, wrap = "".join(map(chr, spec["unit"])), spec["count"], spec.get("wrap", True)
+    big = unit * count
+    v = {"k": [big, None]} if wrap else big
+    out = {"chars": len(big)}
+    texts = {"raw": stdjson.dumps(v, ensure_ascii=False, separators=(",", ":")), "escaped": stdjson.dumps(v)}
+    out["text_chars"] = {k: len(t) for k, t in texts.items()}
+    try:
+        own = fast_json.dumps(v)
+        out["own_is"] = "raw" if own == texts["raw"] else ("escaped" if own == texts["escaped"] else "other")
+        out["own_roundtrip"] = fast_json.loads(own) == v
+    except Exception as ex:  # noqa: BLE001
+        out["own_exc"] = type(ex).__name__
+    for spelling, t in texts.items():
+        for form, inp in (("str", t), ("bytes", t.encode("utf-8"))):
+            try:
+                out[f"{spelling}/{form}"] = (fast_json.loads(inp) == v)
+            except Exception as ex:  # noqa: BLE001
+                out[f"{spelling}/{form}"] = "raises " + type(ex).__name__
+    return out
+
+
 def churn(fast_json):
     """a long session: 1500 distinct short documents (more than any cache holds), each decoded, edited and decoded
     again later, then the first ones once more; and the 1000th encode of one object"""
@@ -316,6 +344,8 @@ def main():
                     ans["out"].append(loads_variant(fast_json, json_h, it["t"], it.get("how", "str")))
         elif op == "reuse":
             ans = {"out": [reuse_check(fast_json, json_h.to_py(t)) for t in req["values"]]}
+        elif op == "bigtwins":
+            ans = {"out": [bigtwins(fast_json, sp) for sp in req["specs"]]}
         elif op == "churn":
             ans = churn(fast_json)
         elif op == "limits":
